@@ -7,24 +7,26 @@
 // flat key-value on goleveldb with its WAL file).
 //
 // Oracles (none of them models what an operation should do):
-//   revert        at Snapshot() the harness records every observable the property lists, for every
-//                 account of the universe, through the public getters; after RevertToSnapshot the same
-//                 reading must be equal to the record.
-//   independence  after EVERY operation on state X the full reading of every other live state Y must be
-//                 equal to Y's previous reading.
-//   twin          the operations applied to the original are replayed, without any Copy, on a fresh
-//                 database; every root the original computed (IntermediateRoot / Commit) and, in the
-//                 flat in-memory mode, the final content of the store must be equal.
+//
+//	revert        at Snapshot() the harness records every observable the property lists, for every
+//	              account of the universe, through the public getters; after RevertToSnapshot the same
+//	              reading must be equal to the record.
+//	independence  after EVERY operation on state X the full reading of every other live state Y must be
+//	              equal to Y's previous reading.
+//	twin          the operations applied to the original are replayed, without any Copy, on a fresh
+//	              database; every root the original computed (IntermediateRoot / Commit) and, in the
+//	              flat in-memory mode, the final content of the store must be equal.
+//
 // Diagnostics (never decide): root of a twin that omits the reverted spans (§6-S5b), and whether a
 // fresh copy reads equal to its source.
 //
 // Contract of the code that the workload respects (and nothing more):
-//   * snapshots never span Finalise/IntermediateRoot/Commit/Reset: Finalise clears the journal
+//   - snapshots never span Finalise/IntermediateRoot/Commit/Reset: Finalise clears the journal
 //     ("reverting across transactions is not allowed") and RevertToSnapshot panics on a stale id;
 //     every boundary drops the state's open snapshots. Snapshot ids of a state are never used on its copy
 //     ("Snapshots of the copied state cannot be applied to the copy").
-//   * (token) balances never go below zero and SubRefund never exceeds the counter.
-//   * flat key-value backend: Commit rewrites the single committed state of the shared database in
+//   - (token) balances never go below zero and SubRefund never exceeds the counter.
+//   - flat key-value backend: Commit rewrites the single committed state of the shared database in
 //     place, so the other states over that database are retired at that moment (what app.CommitBlock
 //     does); in the trie backends every state may commit at any time.
 package c09
@@ -34,6 +36,7 @@ import (
 	"fmt"
 	"math/big"
 	"sort"
+	"strings"
 
 	"verif/h/internal/core"
 	"verif/h/internal/rng"
@@ -65,8 +68,24 @@ func init() {
 	})
 }
 
+// floors: about half of the minimum measured over VERIF_SEED=1..5 (quick); thorough runs 60x the cases.
 func floors(tier string) map[string]int64 {
-	return map[string]int64{}
+	f := map[string]int64{
+		"reverts_nonempty": 1400, "reverts_nested": 650, "reverts_skipping_inner_snapshots": 150, "reverts_nonempty_on_copies": 250,
+		"reverted/tokwrite": 1000, "reverted/suicide": 240, "reverted/suicide-multitoken": 30, "reverted/log": 230, "reverted/refund": 230,
+		"reverted/create": 200, "reverted/code": 240, "reverted/store": 600, "reverted/nonce": 260, "reverted/credits": 100, "reverted/balwrite": 700,
+		"copies": 2400, "copies_of_copies": 500, "independence_checks": 55000, "token_writes": 9500,
+		"twin_compared_with_copies_taken": 600, "twin_roots_compared": 4500,
+		"boundary/commit": 3000, "boundary/iroot": 3500, "boundaries_on_copies": 1300,
+		"mode/plain-trie": 330, "mode/wrapped-trie": 260, "mode/kv-mem": 290, "mode/kv-disk": 65,
+	}
+	if tier == "thorough" {
+		for k := range f {
+			f[k] *= 50
+		}
+	}
+	f["max:snapshot_depth"] = 5
+	return f
 }
 
 // ------------------------------------------------------------------ generator
@@ -83,6 +102,7 @@ type gen struct {
 	cScale   float64
 	step     int
 	height   map[int]uint64
+	delEmpty bool // deleteEmptyObjects: a chain-configuration constant (the application hard-codes false)
 }
 
 func (g *gen) pickAcct(X *sobj, want func(a int) bool) int {
@@ -222,7 +242,7 @@ func (g *gen) mutator(X *sobj) op {
 
 func (g *gen) boundary(X *sobj) op {
 	r := g.r
-	o := op{Obj: X.id, B: r.Chance(0.3)}
+	o := op{Obj: X.id, B: g.delEmpty}
 	x := r.Intn(100)
 	switch {
 	case x < 45:
@@ -344,12 +364,15 @@ func sameDump(a, b map[string]string) (string, bool) {
 
 var minimisedInProcess = map[string]bool{}
 
+var dirSeq int // unique scratch names (on-disk backend)
+
 // minimise shrinks an operation list to a (1-minimal within budget) list that still triggers key.
 func minimise(mode int, dir string, u *universe, ops []op, key string, budget int) []op {
 	n := 0
 	test := func(cand []op) bool {
 		n++
-		run, err := newRunner(mode, dir, fmt.Sprintf("min%d", n), u)
+		dirSeq++
+		run, err := newRunner(mode, dir, fmt.Sprintf("min%d", dirSeq), u)
 		if err != nil {
 			return false
 		}
@@ -359,6 +382,10 @@ func minimise(mode int, dir string, u *universe, ops []op, key string, budget in
 			if run.hasKey(key) {
 				return true
 			}
+		}
+		if strings.HasPrefix(key, "twin/") || strings.HasPrefix(key, "revert-continuation/") {
+			run.twinCheck(dir, fmt.Sprintf("min%d-", dirSeq))
+			return run.hasKey(key)
 		}
 		return false
 	}
@@ -422,7 +449,7 @@ func run(c *core.Ctx) {
 		return
 	}
 	defer rn.close()
-	g := &gen{r: r, run: rn, height: map[int]uint64{}, setup: r.Range(3, 18),
+	g := &gen{r: r, run: rn, height: map[int]uint64{}, setup: r.Range(3, 18), delEmpty: r.Chance(0.35),
 		bScale: []float64{0.4, 1, 1, 1.8}[r.Intn(4)], sScale: []float64{1, 1, 1.7}[r.Intn(3)], cScale: []float64{0.6, 1, 1.6}[r.Intn(3)]}
 	nsteps := r.Range(25, 90)
 	for i := 0; i < nsteps && len(rn.live()) > 0; i++ {
@@ -431,54 +458,13 @@ func run(c *core.Ctx) {
 	orig := rn.objs[0]
 	if orig.alive {
 		// close the original's last segment the way a block ends
-		rn.step(op{K: "iroot", Obj: 0})
+		rn.step(op{K: "iroot", Obj: 0, B: g.delEmpty})
 		g.height[0]++
-		rn.step(op{K: "commit", Obj: 0, N: g.height[0]})
+		rn.step(op{K: "commit", Obj: 0, B: g.delEmpty, N: g.height[0]})
 	}
 	c.Count("mode/"+modeName[mode], 1)
 
-	// twin of the original
-	switch {
-	case !orig.alive:
-		c.Count("twin_skipped_original_retired", 1)
-	case orig.tainted:
-		c.Count("twin_skipped_after_independence_violation", 1)
-	default:
-		own := rn.own(0)
-		roots, dump, skipped, err := replay(mode, c.Scratch, "twin", u, own)
-		if err != nil {
-			c.Inconclusive("twin backend: " + err.Error())
-			return
-		}
-		c.Count("twin_compared", 1)
-		c.Count("twin_roots_compared", int64(len(orig.roots)))
-		if rn.cnt["copies"] > 0 {
-			c.Count("twin_compared_with_copies_taken", 1)
-		}
-		if i, ok := sameRoots(orig.roots, roots); !ok || skipped > 0 {
-			rn.report("twin/root-differs", fmt.Sprintf("root #%d computed by the original differs from the never-copied twin that ran the same %d operations (%d/%d roots, twin skipped %d ops) [%s]",
-				i, len(own), len(orig.roots), len(roots), skipped, modeName[mode]), len(rn.log), 0, 0)
-		} else if dump != nil {
-			c.Count("twin_kv_stores_compared", 1)
-			if d, ok := sameDump(dumpOf(rn), dump); !ok {
-				rn.report("twin/kv-store-differs", "final flat store of the original differs from the twin's: "+d, len(rn.log), 0, 0)
-			}
-		}
-		// diagnostic (§6-S5b): a twin that never issued the reverted operations
-		if hasOwnRevert(own) {
-			eroots, edump, _, err := replay(mode, c.Scratch, "omit", u, effective(own))
-			if err == nil {
-				c.Count("diag_revert_root_compared", 1)
-				if _, ok := sameRoots(orig.roots, eroots); !ok {
-					c.Count("diag_revert_root_diffs", 1)
-				} else if edump != nil {
-					if _, ok := sameDump(dumpOf(rn), edump); !ok {
-						c.Count("diag_revert_kvstore_diffs", 1)
-					}
-				}
-			}
-		}
-	}
+	rn.twinCheck(c.Scratch, "")
 
 	for k, v := range rn.cnt {
 		if len(k) > 4 && k[:4] == "max:" {
@@ -496,16 +482,20 @@ func run(c *core.Ctx) {
 			upto = len(rn.log)
 		}
 		ops := rn.log[:upto]
-		if len(v.Key) > 5 && v.Key[:5] == "twin/" {
-			w["original_ops"] = opStrings(rn.own(0))
-			w["all_ops"] = rn.log
+		if strings.HasPrefix(v.Key, "twin/") || strings.HasPrefix(v.Key, "revert-continuation/") {
 			w["original_roots"] = orig.roots
-		} else {
-			if c.Verbose || !minimisedInProcess[v.Key] {
+		}
+		{
+			// shrinking costs up to `budget` re-executions: once per key and at most 4 times per child
+			// process; --replay always shrinks (and prints the result)
+			if c.Verbose || (!minimisedInProcess[v.Key] && len(minimisedInProcess) < 4) {
 				minimisedInProcess[v.Key] = true
-				budget := 160
+				budget := 80
 				if mode == modeKVDisk {
-					budget = 40
+					budget = 30
+				}
+				if c.Verbose {
+					budget = 300
 				}
 				min := minimise(mode, c.Scratch, u, ops, v.Key, budget)
 				w["minimised_ops"] = min
@@ -563,4 +553,89 @@ func dumpOf(rn *runner) map[string]string {
 		return out
 	}
 	return nil
+}
+
+// twinCheck: the operations applied to the original, replayed without any Copy on a fresh database,
+// must compute the same roots (and, in the flat in-memory mode, the same store).
+func (rn *runner) twinCheck(dir, prefix string) {
+	orig := rn.objs[0]
+	mode := rn.be.mode
+	switch {
+	case !orig.alive:
+		rn.cnt["twin_skipped_original_retired"]++
+		return
+	case orig.tainted:
+		rn.cnt["twin_skipped_after_independence_violation"]++
+		return
+	case orig.revertBroken:
+		// the original's own revert already failed the property; getters of the harness (which the twin does
+		// not call) may then cache the wrongly restored account and the roots diverge for that reason
+		rn.cnt["twin_skipped_after_revert_violation"]++
+		return
+	}
+	own := rn.own(0)
+	roots, dump, _, skipped, err := replay(mode, dir, prefix+"twin", rn.u, own)
+	if err != nil {
+		rn.cnt["twin_backend_errors"]++
+		return
+	}
+	rn.cnt["twin_compared"]++
+	rn.cnt["twin_roots_compared"] += int64(len(orig.roots))
+	if rn.cnt["copies"] > 0 {
+		rn.cnt["twin_compared_with_copies_taken"]++
+	}
+	if i, ok := sameRoots(orig.roots, roots); !ok || skipped > 0 {
+		a, b := "-", "-"
+		if i >= 0 && i < len(orig.roots) {
+			a = orig.roots[i]
+		}
+		if i >= 0 && i < len(roots) {
+			b = roots[i]
+		}
+		rn.report("twin/root-differs", fmt.Sprintf("root #%d computed by the original (%s) differs from the never-copied twin (%s) that ran the same %d operations (%d/%d roots, twin skipped %d ops) [%s]",
+			i, a, b, len(own), len(orig.roots), len(roots), skipped, modeName[mode]), len(rn.log), 0, 0)
+	} else if dump != nil {
+		rn.cnt["twin_kv_stores_compared"]++
+		if d, ok := sameDump(dumpOf(rn), dump); !ok {
+			rn.report("twin/root-differs", "all roots equal, but the final flat store of the original differs from the never-copied twin's: "+d+" ["+modeName[mode]+"]", len(rn.log), 0, 0)
+		}
+	}
+	// A twin that never issued the reverted operations ("revert exactly" = as if they had not happened):
+	//  - its final READINGS (the property's observables) must equal the original's: this catches hidden state
+	//    that a revert fails to restore and that only shows in later operations (e.g. the log index counter);
+	//  - its ROOTS are compared as a diagnostic only (DESIGN 6-S5b: the account encoding is not a listed observable).
+	if hasOwnRevert(own) {
+		eroots, edump, eobs, _, err := replay(mode, dir, prefix+"omit", rn.u, effective(own))
+		if err == nil {
+			// not judged when the universe holds the RIPEMD address: touching it stays "dirty" across a revert by
+			// design (journal.dirty, inherited consensus exception), i.e. that revert is inexact on purpose
+			if rn.u.Ripemd {
+				rn.cnt["revert_continuations_skipped_ripemd_universe"]++
+			} else if i, n := firstDiff(eobs, orig.last); i >= 0 {
+				rn.cnt["revert_continuations_compared"]++
+				rn.report("revert-continuation/"+classes[obsClass[i]], fmt.Sprintf("at the end of the program %s is %s in the state that executed and reverted %d span(s), but %s in a twin that never issued the reverted operations (%d observables differ) [%s]",
+					obsLabel[i], show(i, orig.last[i]), countReverts(own), show(i, eobs[i]), n, modeName[mode]), len(rn.log), 0, 0)
+			} else {
+				rn.cnt["revert_continuations_compared"]++
+			}
+			rn.cnt["diag_revert_root_compared"]++
+			if _, ok := sameRoots(orig.roots, eroots); !ok {
+				rn.cnt["diag_revert_root_diffs"]++
+			} else if edump != nil {
+				if _, ok := sameDump(dumpOf(rn), edump); !ok {
+					rn.cnt["diag_revert_kvstore_diffs"]++
+				}
+			}
+		}
+	}
+}
+
+func countReverts(own []op) int {
+	n := 0
+	for _, o := range own {
+		if o.K == "revert" {
+			n++
+		}
+	}
+	return n
 }
